@@ -474,7 +474,14 @@ func (c *Cluster) tooBig() bool {
 		}
 		h := n.core().Hashgraph()
 		und := len(h.UndeterminedEvents)
-		if und > 1200 || (n.cacheSize < 1000 && und > n.cacheSize/2) {
+		smallCache := n.cacheSize < 1000 && und > n.cacheSize/2
+		if smallCache && n.storeKind == "badger" && c.cfg.BacklogOverCache && und <= 3*n.cacheSize {
+			// a persistent node falls back to its database: a backlog larger than
+			// its cache is within what it supports
+			smallCache = false
+			c.stats.probe("backlog-larger-than-half-the-cache")
+		}
+		if und > 1200 || smallCache {
 			return true
 		}
 		// a round that stays undecided while later rounds pile up makes every
